@@ -44,6 +44,8 @@ ADV_TECH = "exhaustive fault enumeration: every operator of a mutation catalogue
 EXTRA = {
  "C01": (ADV_NOTE, ADV_TECH + "; plus every truncation / single-byte substitution of honest envelopes and a set of name-clash and deeply nested scripts"),
  "C14": (ADV_NOTE, ADV_TECH),
+ "C15": ("Trusted base: the explorer (forks are pairs of data from different branches of one explored schedule graph, all produced and signed by the real interpreter) and the harness's own multiset arithmetic over decoded traces and stores; bounds: the five FORK scripts, victim = the init peer, the state cap of the exploration.",
+         "exhaustive fault enumeration over forks: every (data the victim can hold, any data of the explored graph) pair merged by the real interpreter, verdict compared with multiset arithmetic on the decoded inputs"),
  "C23": (E2F_NOTE, "bounded-exhaustive enumeration of token strings and of generated scripts with every single scope mutation, parser verdict compared with an independent scope checker"),
  "C21": (E2B_NOTE, E2_TECH), "C22": (E2B_NOTE, E2_TECH), "C24": (E2C_NOTE, E2_TECH),
  "C27": (E2D_NOTE, "bounded-exhaustive enumeration of encodings and of single-fault corruptions of them against round-trip and refusal oracles"),
@@ -66,6 +68,9 @@ CHECKS.update({
  "C01": ("fault_enumeration", "7 C01 and 11.9", "Adversarial but correctly signed data (the catalogue of C14 at every position of every situation, re-signed by the attacker and not), every truncation and single-byte substitution of honest envelopes fed to execute_air and to to_human_readable_data, name-clash / scope-edge scripts run to quiescence and seq/par/xor/new nested up to 1000 (thorough 100000) deep, each also parsed and beautified: no panic, no dead process, no allocation beyond a 4 GiB address space. Five crash sites were repaired (fixed entries in known_findings.json); one known finding remains (unsound string after deserializing a validated archive, root cause in rkyv 0.7.43)."),
  "C14": ("fault_enumeration", "7 C14 and 11.9", "Every operator of the tamper catalogue (numbers, arrays, state kinds, re-pointed / consistently forged / relocated / swapped results, removed store entries, signatures, particle ids) at every position of every harvested situation, singly and as ordered pairs, re-signed by the attacker and not: the victim either rejects the data or its new data verifies and holds, for every honest peer, only results the honest outcome holds at the same call site."),
  "C23": ("exploration", "7 C23 and 11.8", "Totality over all token strings up to length 4 (thorough 5) over a 26-token alphabet (Err or an Ok tree without error nodes, never a panic); Ok implies well-scoped (an independent ScopeCheck on the text) for every generated script and every single scope mutation of it. Two validator defects were repaired (fixed entries), two remain as known findings because the repository's own tests pin them (next after its fold; fail with an undefined scalar)."),
+})
+CHECKS.update({
+ "C15": ("fault_enumeration", "7 C15 and 11.9", "Every pair (data the victim can hold, any data of the schedule graph) of five fork scripts - the equivocating peer signs result sets on different branches of the graph, including a repeated identical result - is merged by the victim: a peer whose two result multisets are incomparable makes the run fail in preparation with the previous data returned; nested sets are never rejected as inconsistent and the merged data carries, for every other peer, the signature from the input with the larger multiset."),
 })
 NOT_BUILT = {
  "C01": "no check claimed: the fault-enumeration sweep (isolated worker, JSON-tree tamper pipeline) designed in DESIGN.md 7 C01 was not built in the time available; the six crash sites reproduced by hand in the design phase are described there",
